@@ -77,6 +77,31 @@ func (fr *frame) evalClause(cl *Clause, blk *ssa.BasicBlock, st *State, extra ma
 	return res
 }
 
+// evalClauseVal evaluates an integer-valued expression clause (ghost update amounts).
+func (fr *frame) evalClauseVal(cl *Clause, blk *ssa.BasicBlock, st *State) string {
+	ex := fr.ex
+	pkg := fr.fn.Pkg
+	if pkg == nil && fr.fn.Parent() != nil {
+		pkg = fr.fn.Parent().Pkg
+	}
+	if fr.c != nil && fr.c.Pkg != nil {
+		pkg = fr.c.Pkg
+	}
+	vars := map[string]Val{}
+	for i, p := range fr.fn.Params {
+		vars[p.Name()] = fr.args[i]
+	}
+	n := 0
+	ce := &cenv{ex: ex, pkg: pkg, fr: fr, blk: blk, vars: vars, st: st, old: fr.entry, nq: &n}
+	return ex.pureScope(func() string {
+		v := ce.eval(cl.Expr)
+		if len(v.L) != 1 {
+			panic(unsupported("ghost update amount is not a scalar: " + cl.Text))
+		}
+		return v.L[0]
+	})
+}
+
 // evalCallClause evaluates a callee's clause at a call site.
 func (ex *Exec) evalCallClause(c *Contract, cl *Clause, vars map[string]Val, st, old *State) string {
 	n := 0
@@ -962,7 +987,12 @@ func (ce *cenv) pseudo(name string, x *ast.CallExpr) (Val, bool) {
 			t = app("+", app("*", "256", t), ex.sliceLoad(ce.st, s, addc(i, int64(k))).L[0])
 		}
 		return scalar(types.Typ[types.Uint32], t), true
-	case "held": // held(mu)
+	case "held": // held(mu): mu is a sync.Mutex variable/field, or a *sync.Mutex
+		if v, ok := ce.tryEval(x.Args[0]); ok {
+			if pt, isPtr := v.T.Underlying().(*types.Pointer); isPtr && isNamed(pt.Elem(), "sync", "Mutex") {
+				return ex.load(ce.st, v), true
+			}
+		}
 		p := ce.evalAddr(x.Args[0])
 		return ex.load(ce.st, p), true
 	case "ref": // ref(x): the object reference of a pointer or of the payload of an interface value
@@ -1047,6 +1077,8 @@ func (ce *cenv) pseudo(name string, x *ast.CallExpr) (Val, bool) {
 			v.L[j] = ex.heapGet(ce.st, rk, l.Sort)
 		}
 		return v, true
+	case "expected": // expected(counter): the counter's value once every goroutine spawned so far has finished
+		return intVal(ex.expectedGet(ce.st, x.Args[0].(*ast.Ident).Name)), true
 	case "ncalls": // ncalls(fn): number of contract calls of fn made so far by this unit
 		fn := fnNameArg(x.Args[0])
 		key := "X|ncalls." + fn
@@ -1316,4 +1348,18 @@ func (ex *Exec) contractSig0(pkg *ssa.Package, name string) *types.Signature {
 		}
 	}
 	return nil
+}
+
+// tryEval evaluates e, reporting failure instead of refusing the unit.
+func (ce *cenv) tryEval(e ast.Expr) (v Val, ok bool) {
+	defer func() {
+		if r := recover(); r != nil {
+			if _, isU := r.(unsupportedErr); isU {
+				ok = false
+				return
+			}
+			panic(r)
+		}
+	}()
+	return ce.eval(e), true
 }
